@@ -186,6 +186,7 @@ static void own_buffer_needles(const vrt::Box<ST::string> &hs, const S &h, Rng &
 static void body()
 {
     ambient::enable(3);
+    vrt::box_shifts() = true;
     vrt::require("pairs", 1000);
     vrt::require("find.hit", 1000);
     vrt::require("find.miss", 1000);
